@@ -36,5 +36,5 @@ Proof. exact safe_validates. Qed.
 Print Assumptions C02_safe_bin_validates.
 
 (* non-vacuity: an admissible configuration exists *)
-Example C02_admissible_exists : admissible (@mkCfg RA 100 1 (/2) 1 1 10 (/10)).
+Example C02_admissible_exists : admissible (@mkCfg RA 100%Z 1%R (/2)%R 1%R 1%Z 10%Z (/10)%R).
 Proof. constructor; cbn; try lia; try lra. Qed.
